@@ -2,7 +2,7 @@
 import json
 import os
 
-from vcheck import Inconclusive, parse_tla_state, write_ndjson, read_ndjson
+from vcheck import Inconclusive, REPO, parse_tla_state, write_ndjson, read_ndjson
 
 META = {
     "engine": "CredsMatrix",
@@ -37,7 +37,7 @@ def run(ctx):
     bpath = os.path.join(ctx.run, "cases.ndjson")
     tpath = os.path.join(ctx.run, "rows.ndjson")
     write_ndjson(bpath, cases)
-    ctx.driver(binary, "TestVerifC58Matrix", {"VERIF_BEHAVIOURS": bpath, "VERIF_OUT": tpath})
+    ctx.driver(binary, "TestVerifC58Matrix", {"VERIF_BEHAVIOURS": bpath, "VERIF_OUT": tpath, "VERIF_REPO_DIR": REPO})
     rows = read_ndjson(tpath)
     if len(rows) != len(cases):
         raise Inconclusive("driver returned %d rows for %d cases" % (len(rows), len(cases)))
